@@ -161,7 +161,7 @@ BRANCH_WITNESS = [((177, 235, 241), (141, 109, 0)), ((177, 235, 240), (141, 109,
 #    an ordinary and a very_readable request)
 DIRECTION_WITNESS = [((179, 138, 46), (142, 142, 142)), ((188, 88, 211), (193, 74, 215)), ((196, 88, 184), (193, 74, 215)),
                      ((108, 114, 108), (108, 108, 108)), ((144, 144, 158), (144, 144, 144)), ((180, 120, 120), (132, 132, 132)),
-                     ((150, 40, 255), (108, 108, 108))]
+                     ((150, 40, 255), (108, 108, 108)), ((104, 147, 227), (146, 146, 146)), ((237, 71, 209), (141, 141, 141))]
 SHELL_BGS = [(142, 142, 142), (128, 128, 128), (115, 83, 215), (193, 74, 215)]
 
 
